@@ -13,3 +13,8 @@ open StarsimModel.C09
 #print axioms C09_restores_transparent
 #print axioms C09_restores_commute
 #print axioms C09_uninterrupted
+#print axioms C09_no_escaping_closure_over_objects
+#print axioms C09_plan_copied_with_memo
+#print axioms C09_bound_twins
+#print axioms C09_bound_twins_by_value
+#print axioms C09_closure_copy_counterexample
